@@ -386,7 +386,7 @@ class PlannerSpec(FuncSpec):
     max_paths = 6000
     max_seconds = 900
 
-    quick_props = ("C14",)
+    quick_props = ("C14", "C05")
 
     def configs(self, tier):
         # rank 2 takes several minutes (nonlinear products of all chunk sizes): thorough tier
